@@ -29,8 +29,10 @@ pub enum Op {
     CreateStream { txid: f64 },
     Publish { msid: u32, txid: f64, key: Option<String>, mode: Option<String>, nargs: usize },
     Play { msid: u32, txid: f64, key: Option<String>, nargs: usize },
-    CloseStream { id: Option<u32> },
-    DeleteStream { id: Option<u32> },
+    /// `id`: the stream the command names when its argument is an exact u32 (None: no argument, or
+    /// a number that names no stream); `raw`: the number actually sent when it is not `id`
+    CloseStream { id: Option<u32>, raw: Option<f64> },
+    DeleteStream { id: Option<u32>, raw: Option<f64> },
     Audio { msid: u32, ts: u32, data: Vec<u8> },
     Video { msid: u32, ts: u32, data: Vec<u8> },
     SetDataFrame { msid: u32, well_formed: bool },
@@ -287,7 +289,7 @@ impl Model {
                     self.outstanding.insert(id, Req::Play { key: key.clone().unwrap(), stream: *msid });
                 }
             }
-            Op::CloseStream { id } | Op::DeleteStream { id } => {
+            Op::CloseStream { id, .. } | Op::DeleteStream { id, .. } => {
                 let delete = matches!(op, Op::DeleteStream { .. });
                 if let (Some(app), Some(id)) = (self.connected_app.clone(), id) {
                     if let Some(st) = self.streams.get(id).cloned() {
